@@ -130,6 +130,8 @@ def world_include(r, wid):
         sub.append("Inner | [%d, %d]" % (modes[1], modes[0]))
         files["lib/sub.xbb"] = "\n".join(sub) + "\n"
         head2 = ["name Main", "version 1.0", 'include "../lib/sub.xbb"']
+        if r.random() < 0.5:
+            items = items + [["Inner | [%d, %d]" % tuple(r.sample(range(0, 9), 2))]]
         script = {"head": head2, "items": items}
         files["app/main.xbb"] = G.render(script)
         return {"id": wid, "kind": "include_files", "files": files, "path": "app/main.xbb",
@@ -169,6 +171,31 @@ def hash_seeds(seed, K):
     return out
 
 
+def _cfg(c):
+    return c if isinstance(c, dict) else {"hashseed": int(c)}
+
+
+def cfg_text(c):
+    c = _cfg(c)
+    return "PYTHONHASHSEED=%d%s" % (c["hashseed"], " PYTHONOPTIMIZE=1" if c.get("optimize") else "")
+
+
+_CHILDREN = []
+
+
+def _kill_children(*_a):
+    for p in list(_CHILDREN):
+        try:
+            os.killpg(p.pid, 9)
+        except OSError:
+            try:
+                p.kill()
+            except OSError:
+                pass
+    if _a:                      # called as a signal handler
+        os._exit(2)
+
+
 def run_servers(worlds, hseeds, workdir, parallel=16, timeout=3000, after=None):
     """Run one fresh interpreter per hash seed over the same worlds. Returns
     {label: [result per world]}; label = index in hseeds (seeds may repeat).
@@ -180,6 +207,7 @@ def run_servers(worlds, hseeds, workdir, parallel=16, timeout=3000, after=None):
     with open(wpath, "w") as f:
         for w in worlds:
             f.write(json.dumps(w) + "\n")
+    hseeds = [_cfg(c) for c in hseeds]
     pending = list(enumerate(hseeds))
     running = []
     results = {}
@@ -196,15 +224,20 @@ def run_servers(worlds, hseeds, workdir, parallel=16, timeout=3000, after=None):
                 continue
             pending.remove((i, h))
             env = dict(os.environ)
-            env["PYTHONHASHSEED"] = str(h)
+            env["PYTHONHASHSEED"] = str(h["hashseed"])
             env["PYTHONDONTWRITEBYTECODE"] = "1"
+            env.pop("PYTHONOPTIMIZE", None)
+            if h.get("optimize"):
+                env["PYTHONOPTIMIZE"] = "1"
+            env["BBSIM_C19_PARENT"] = str(os.getpid())
             out = os.path.join(workdir, "out.%d.jsonl" % i)
             priv = os.path.join(workdir, "priv.%03d" % after.get(i, i))
             os.makedirs(priv, exist_ok=True)
             errf = open(os.path.join(workdir, "err.%d.txt" % i), "wb")
             p = subprocess.Popen([sys.executable, "-m", "bbsim.c19server", wpath, out, priv], cwd=VERIF, env=env,
-                                 stdout=subprocess.DEVNULL, stderr=errf)
+                                 stdout=subprocess.DEVNULL, stderr=errf, start_new_session=True)
             errf.close()
+            _CHILDREN.append(p)
             running.append((i, h, p, out))
         time.sleep(0.05)
         still = []
@@ -213,16 +246,18 @@ def run_servers(worlds, hseeds, workdir, parallel=16, timeout=3000, after=None):
             if rc is None:
                 if time.monotonic() > t_end:
                     p.kill()
-                    errors.append("interpreter %d (hash seed %d) timed out" % (i, h))
+                    errors.append("interpreter %d (%s) timed out" % (i, cfg_text(h)))
                     done.add(i)
                 else:
                     still.append((i, h, p, out))
                 continue
             done.add(i)
+            if p in _CHILDREN:
+                _CHILDREN.remove(p)
             with open(os.path.join(workdir, "err.%d.txt" % i), "rb") as ef:
                 err = ef.read()[-4000:].decode("utf-8", "replace")
             if rc != 0:
-                errors.append("interpreter %d (hash seed %d) exited %d: %s" % (i, h, rc, err[-800:]))
+                errors.append("interpreter %d (%s) exited %d: %s" % (i, cfg_text(h), rc, err[-800:]))
                 continue
             with open(out) as f:
                 results[i] = [json.loads(l) for l in f]
@@ -231,7 +266,12 @@ def run_servers(worlds, hseeds, workdir, parallel=16, timeout=3000, after=None):
 
 
 def line_of(r):
-    """The compared observable of one world in one interpreter."""
+    """The compared observable of one world in one interpreter.  The statement quantifies
+    over valid scripts: for a script that does not load only the fact that it does not is
+    compared, not the exception type (which a correct implementation may well choose in
+    set order)."""
+    if not isinstance(r.get("load"), str):
+        return ["load failed"]
     return [r.get("load"), r.get("dumps"), r.get("dumps_unstable"), bool(r.get("pair_bad"))]
 
 
@@ -258,19 +298,24 @@ def compare(worlds, results, hseeds):
         if len(set(r.get("raw") for r in rs.values())) > 1:
             stats["order_differed"] += 1
         lines = {i: json.dumps(line_of(r)) for i, r in rs.items()}
+        # an interpreter running with assertions stripped is compared only on scripts
+        # that are valid for the reference interpreter (assert-based input validation is
+        # legitimate; it can only differ on invalid scripts)
+        if not isinstance(first.get("load"), str):
+            lines = {i: l for i, l in lines.items() if not _cfg(hseeds[i]).get("optimize")}
         for i, r in rs.items():
             if r.get("pair_bad"):
                 viol.append({"inv": "D2", "world": j, "a": i, "b": i,
-                             "detail": "register/function pairing broken under PYTHONHASHSEED=%d: %s"
-                                       % (hseeds[i], "; ".join(r["pair_bad"])[:300])})
+                             "detail": "register/function pairing broken under %s: %s"
+                                       % (cfg_text(hseeds[i]), "; ".join(r["pair_bad"])[:300])})
                 break
         if len(set(lines.values())) > 1:
             a = labels[0]
-            b = [i for i in labels if lines[i] != lines[a]][0]
+            b = [i for i in labels if i in lines and lines[i] != lines[a]][0]
             what = "serialisation" if rs[a].get("load") == rs[b].get("load") else "program content"
             viol.append({"inv": "D1", "world": j, "a": a, "b": b,
-                         "detail": "%s differs between PYTHONHASHSEED=%d and %d: %s | %s" %
-                                   (what, hseeds[a], hseeds[b], _short(rs[a]), _short(rs[b]))})
+                         "detail": "%s differs between %s and %s: %s | %s" %
+                                   (what, cfg_text(hseeds[a]), cfg_text(hseeds[b]), _short(rs[a]), _short(rs[b]))})
     return viol, stats
 
 
@@ -284,7 +329,7 @@ def _short(r):
 def still_differs(world, ha, hb, workdir, inv):
     shutil.rmtree(workdir, ignore_errors=True)        # fresh private directories per trial
     res, errs = run_servers([world], [ha, hb], workdir, parallel=2, timeout=120,
-                            after={1: 0} if ha == hb else None)
+                            after={1: 0} if _cfg(ha) == _cfg(hb) else None)
     if errs or 0 not in res or 1 not in res:
         return False
     if inv == "D2":
@@ -318,9 +363,9 @@ def replay(path):
         doc = json.load(f)
     wd = os.path.join(procs.scratch_top(), "c19.%07d" % os.getpid())
     try:
-        ha, hb = doc["hashseeds"]
+        ha, hb = doc.get("configs") or doc["hashseeds"]
         res, errs = run_servers([dict(doc["world"], verbose=True)], [ha, hb], wd, parallel=2, timeout=300,
-                                after={1: 0} if ha == hb else None)
+                                after={1: 0} if _cfg(ha) == _cfg(hb) else None)
         if errs:
             print("HARNESS-ERROR " + "; ".join(errs))
             return 2
@@ -347,12 +392,19 @@ def main(a, seed):
         n = max(50, int(n * float(os.environ["VERIF_BUDGET_S"]) / (60 if tier == "quick" else 600)))
     K = pr["K"]
     hs = hash_seeds(seed, K)
-    hs_all = hs + [hs[0]]          # one interpreter repeats a seed (non-hash nondeterminism)
+    # interpreter K repeats the first seed as a second run on the same machine (run-to-run
+    # nondeterminism); interpreter K+1 repeats it with assertions stripped (PYTHONOPTIMIZE)
+    hs_all = [{"hashseed": h} for h in hs] + [{"hashseed": hs[0]}, {"hashseed": hs[0], "optimize": True}]
     worlds = [gen_world(seed, i) for i in range(n)]
+    procs.cleanup_stale()
     wd = os.path.join(procs.scratch_top(), "c19.%07d" % os.getpid())
+    shutil.rmtree(wd, ignore_errors=True)
+    import signal
+    for sg in (signal.SIGTERM, signal.SIGINT, signal.SIGHUP):
+        signal.signal(sg, _kill_children)
     harness = []
     try:
-        results, errs = run_servers(worlds, hs_all, wd, parallel=a.workers, after={len(hs_all) - 1: 0})
+        results, errs = run_servers(worlds, hs_all, wd, parallel=a.workers, after={len(hs) : 0})
         harness += errs
         if len(results) < len(hs_all):
             viol, stats = [], {}
@@ -376,14 +428,14 @@ def main(a, seed):
                 continue
             w = worlds[v["world"]]
             ha, hb = hs_all[v["a"]], hs_all[v["b"]]
-            if v["inv"] == "D1" and ha == hb:
+            if v["inv"] == "D1" and _cfg(ha) == _cfg(hb):
                 v["detail"] = ("same hash seed, second run after the first on the same machine gives a different "
                                "result (run-to-run nondeterminism): " + v["detail"])
             small = minimise(w, ha, hb, os.path.join(wd, "min"), v["inv"])
             os.makedirs(os.path.join(OUT, "replays"), exist_ok=True)
             path = os.path.join(OUT, "replays", "C19-%d-%d.json" % (seed, v["world"]))
             with open(path, "w") as f:
-                json.dump({"property": PROP, "seed": seed, "world": small, "hashseeds": [ha, hb],
+                json.dump({"property": PROP, "seed": seed, "world": small, "configs": [_cfg(ha), _cfg(hb)],
                            "violation": v, "original_items": len(w["script"]["items"]),
                            "minimised_items": len(small["script"]["items"])}, f, indent=1)
             # confirm in two brand-new interpreters
@@ -392,6 +444,7 @@ def main(a, seed):
             else:
                 harness.append("world %d: violation %s did not reproduce in fresh interpreters" % (v["world"], v["inv"]))
     finally:
+        _kill_children()
         shutil.rmtree(wd, ignore_errors=True)
     wall = time.monotonic() - t0
     texts = set(json.dumps(w.get("script")) + json.dumps(w.get("files", {})) for w in worlds)
@@ -407,7 +460,7 @@ def main(a, seed):
             "evaluations": len(worlds) * len(hs_all),
             "worlds": len(worlds),
             "interpreters": len(hs_all),
-            "hash_seeds": hs_all,
+            "interpreter_configurations": [cfg_text(c) for c in hs_all],
             "distinct_nontrivial": len(nontriv),
             "distinct_worlds": len(texts),
             "rule": "worlds (script text plus optional include tree) are drawn by a seeded PRNG biased to "
@@ -421,8 +474,10 @@ def main(a, seed):
             "runs_per_hour": int(len(worlds) * len(hs_all) / wall * 3600) if wall else 0,
             "seeds_per_hour": "%d hash seeds per batch (%.0f s)" % (len(hs), wall),
             "simulated_time": "n/a (the system reads no clock)",
-            "fault_kinds": {"hash_seed_change": {"configured": len(hs_all) - 1,
-                                                 "fired_worlds_with_different_iteration_order": stats.get("order_differed", 0)}},
+            "fault_kinds": {"hash_seed_change": {"configured": len(hs) - 1,
+                                                 "fired_worlds_with_different_iteration_order": stats.get("order_differed", 0)},
+                            "second_run_same_seed_same_directories": {"configured": 1, "fired": 1},
+                            "assertions_stripped_PYTHONOPTIMIZE": {"configured": 1, "fired": 1}},
             "components": {"real": ["blackbird (working tree)", "antlr4", "sympy", "numpy", "CPython string hashing",
                                     "kernel file system (tmpfs)"], "stubs": []},
             "known_findings_hit": len(known_hits),
